@@ -61,10 +61,10 @@ def _nbrs(h, w, y, x):
     return [(y + dy, x + dx) for dy, dx in _DIRS if 0 <= y + dy < h and 0 <= x + dx < w]
 
 
-def _random_maze(rng, h, w):
+def _random_maze(rng, h, w, tries=6):
     """A random set of cells that induces a tree (grown cell by cell: a new cell has exactly one neighbour in the set)."""
     best = None
-    for _ in range(6):
+    for _ in range(tries):
         cells = {(rng.randrange(h), rng.randrange(w))}
         stop = rng.choice([0.0, 0.05, 0.2])
         while True:
@@ -98,8 +98,21 @@ def _tree_path(h, w, cells, s, g):
 
 def gen_problem(rng, tier):
     h, w = rng.choice(_SIZES)
+    return _gen(rng, h, w)
+
+
+def extra_program_problems(rng):
+    """Larger boards for the program correspondence only (nothing is enumerated there): one non-square medium board and two
+    with more than 256 cells (a tall and a wide one), always the structured construction (a random maze, rooms cut by
+    walls, circles on and triangles off the way from S to G, perturbations)."""
+    from . import _loop
+    return [_gen(rng, h, w, mode=rng.uniform(0.12, 1.0), tries=2) for h, w in _loop.big_shapes(rng)]
+
+
+def _gen(rng, h, w, mode=None, tries=6):
     cells = [(y, x) for y in range(h) for x in range(w)]
-    mode = rng.random()
+    if mode is None:
+        mode = rng.random()
     mark = [[0] * w for _ in range(h)]
     if mode < 0.12:
         # unstructured: random walls, random marks, random S/G
@@ -110,7 +123,7 @@ def gen_problem(rng, tier):
             mark[rng.randrange(h)][rng.randrange(w)] = rng.choice([1, 2, 1, 2, 3])
         s, g = rng.sample(cells, 2)
         return {"height": h, "width": w, "wall_vertical": wv, "wall_horizontal": wh, "mark": mark, "start": list(s), "goal": list(g)}
-    white = _random_maze(rng, h, w)
+    white = _random_maze(rng, h, w, tries)
     if len(white) < 2:
         white = set(white) | {rng.choice(_nbrs(h, w, *next(iter(white))))}
     p = rng.choice([0.0, 0.0, 0.25, 0.6, 1.0, 1.0])     # probability of a wall between two cells of the same colour
